@@ -62,10 +62,12 @@ class Multiplication:
       raise gfapy.ArgumentError("Mulitiplication factor must be >= 0"+
           " ({} found)".format(factor))
     elif factor == 0:
-      if conserve_components and factor == 1 and self.is_cut_segment(segment):
+      # (as for the other factors, the argument shall be a segment)
+      s, sn = self._segment_and_segment_name(segment)
+      if conserve_components and factor == 1 and self.is_cut_segment(s):
         return self
       else:
-        self.rm(segment)
+        self.rm(s)
         return self
     elif factor == 1:
       return self
